@@ -11,6 +11,14 @@ let cmd_c02 (x : sx) : sx =
   | _ -> failwith "c02: expected (m table)"
 
 
+(* certified checker on a candidate output: (table edges face_edge npf) -> 0/1 *)
+let cmd_c02_check (x : sx) : sx =
+  match x with
+  | L [t; e; fe; npf] ->
+      sx_of_bool (c02_check (table_of_sx t) (list_of_sx (pair_of_sx z_of_sx z_of_sx) e) (table_of_sx fe) (list_of_sx z_of_sx npf))
+  | _ -> failwith "c02_check"
+
 let commands : (string * (sx -> sx)) list = [
   "c02", cmd_c02;
+  "c02_check", cmd_c02_check;
 ]
